@@ -30,6 +30,13 @@ pub struct Schedule {
     pub policy: Policy,
     pub tape: Vec<u8>,
     pub weights: Vec<u8>,
+    /// hand over at every n-th instrumented closure call of a thread only (1 = every call): coarse-grained
+    /// schedules make long inputs with large chunks affordable under an owned schedule
+    #[serde(default = "one")]
+    pub yield_every: u16,
+}
+fn one() -> u16 {
+    1
 }
 
 const NW: usize = 18;
@@ -164,9 +171,11 @@ static ST: Mutex<St> = Mutex::new(St::new());
 static CV: Condvar = Condvar::new();
 static ACTIVE: AtomicBool = AtomicBool::new(false);
 static INSTALL: Once = Once::new();
+static YIELD_EVERY: std::sync::atomic::AtomicU32 = std::sync::atomic::AtomicU32::new(1);
 
 thread_local! {
     static REGISTERED: Cell<bool> = const { Cell::new(false) };
+    static CALLS: Cell<u32> = const { Cell::new(0) };
 }
 
 const WATCHDOG: Duration = Duration::from_secs(30);
@@ -226,6 +235,17 @@ pub fn yield_point() {
     }
     if !REGISTERED.with(|r| r.get()) {
         return;
+    }
+    let every = YIELD_EVERY.load(Ordering::Relaxed);
+    if every > 1 {
+        let n = CALLS.with(|c| {
+            let n = c.get().wrapping_add(1);
+            c.set(n);
+            n
+        });
+        if n % every != 0 {
+            return;
+        }
     }
     let me = obs::tid();
     let st = lock();
@@ -360,6 +380,7 @@ pub fn begin_case(schedule: Option<&Schedule>) {
         st.active = true;
         st.policy = s.policy;
         st.tape = s.tape.clone();
+        YIELD_EVERY.store(s.yield_every.max(1) as u32, Ordering::SeqCst);
         for (i, w) in s.weights.iter().take(NW).enumerate() {
             // workers always have weight >= 1 (fairness); the spawner (slot 0) may be starved
             st.weights[i] = if i == 0 { *w } else { (*w).max(1) };
